@@ -21,11 +21,12 @@ DRIVER = 'drv_c19'
 DRIVER_ROOT = 'Drv.C19'
 GEN = []
 THEOREMS = [
-    'C19.filter_spec', 'C19.filter_raises_iff', 'C19.calc_spec', 'C19.calc_sets_field', 'C19.sort_spec',
+    'C19.filter_spec', 'C19.filter_raises_iff', 'C19.calc_spec', 'C19.calc_sets_field', 'C19.calc_raise_partial_update',
+    'C19.sort_spec', 'C19.sort_entry',
     'C19.bucket_key_faithful', 'C19.key_text_faithful', 'C19.bucketRows_eq_groupSpec', 'C19.top_spec', 'C19.top_first_n_of_each_category',
     'C19.aggregate_spec', 'C19.aggregate_partition', 'C19.agg_count', 'C19.agg_sum_average_stddev', 'C19.agg_min_max_homogeneous',
     'C19.agg_mixed_types_fail',
-    'C19.right_names_spec', 'C19.join_spec', 'C19.join_never_overwrites_left',
+    'C19.right_names_spec', 'C19.join_spec', 'C19.join_pairs_equal_values', 'C19.join_never_overwrites_left', 'C19.join_raises',
     'C19.validate_column', 'C19.csv_typing_roundtrip_partial', 'C19.datelike_kept_string',
 ]
 ASSUMPTIONS = [
@@ -393,9 +394,9 @@ def float_cell_matches(impl, q, fn):
         if isinstance(impl, int):
             return Fraction(impl) == q
         return impl == q.numerator / q.denominator
-    # stddev: q >= 0 exact root; q < 0 is the marker -(variance) - 1
+    # stddev: q >= 0 is the exact rational root (the implementation returns its correctly rounded double); q < 0 is the marker -(variance) - 1
     if q >= 0:
-        return Fraction(impl) == q
+        return isinstance(impl, float) and impl == q.numerator / q.denominator
     var = -q - 1
     if not isinstance(impl, float) or impl <= 0:
         return False
@@ -917,7 +918,7 @@ def stream_data(ctx):
                             'values), each via execute_script or the library function; implementation vs mirror vs spec layer + reference oracles; '
                             'non-trivial = at least 2 rows (join: and a right row)')
     rng = ctx.rng('data')
-    cases = data_cases(ctx, rng, ctx.scale(2500, 60000))
+    cases = data_cases(ctx, rng, ctx.scale(20000, 200000))
     reqs = [case_request(c) for c in cases]
     resps = ctx.driver.batch(reqs)
     for case, resp in zip(cases, resps):
@@ -1284,7 +1285,7 @@ def stream_csv(ctx):
                            'and null chunks; dataParseCSV vs model (split cells) vs reference typing + round-trip and date-like oracles; per fixed-offset '
                            'zone; non-trivial = at least one record')
     zones = [('UTC', 1.0)] if ctx.quick else [('UTC', 0.6), ('Etc/GMT+5', 0.2), ('Etc/GMT-3', 0.2)]
-    total = ctx.scale(1500, 30000)
+    total = ctx.scale(10000, 90000)
     for tzname, share in zones:
         def body(tzname=tzname, share=share):
             off = local_offset()
